@@ -162,6 +162,7 @@ type ctx struct {
 	rep      *report
 	resultFn map[*ast.BlockStmt]bool
 	inFunc   map[ast.Node]string // list holder -> enclosing func name
+	nonMap   map[string]bool     // struct fields of this file whose declared type is not a map
 }
 
 func (c *ctx) site(kind string) string {
@@ -199,6 +200,25 @@ func instrument(rel string, data []byte, rep *report) ([]byte, fileReport, error
 	c := &ctx{rel: rel, fset: fset, counts: map[string]int{}, ords: map[string]int{}, rep: rep,
 		resultFn: map[*ast.BlockStmt]bool{}, inFunc: map[ast.Node]string{}}
 
+	// R6 is keyed by file, function and expression; a tree in which the ranged field is
+	// no longer a map (a registry turned into a slice, say) keeps its ordinary range
+	c.nonMap = map[string]bool{}
+	ast.Inspect(f, func(n ast.Node) bool {
+		if st, ok := n.(*ast.StructType); ok && st.Fields != nil {
+			for _, fl := range st.Fields.List {
+				if _, isMap := fl.Type.(*ast.MapType); !isMap {
+					for _, nm := range fl.Names {
+						c.nonMap[nm.Name] = true
+					}
+				} else {
+					for _, nm := range fl.Names {
+						delete(c.nonMap, nm.Name)
+					}
+				}
+			}
+		}
+		return true
+	})
 	for _, d := range f.Decls {
 		fd, ok := d.(*ast.FuncDecl)
 		if !ok || fd.Body == nil {
@@ -516,7 +536,7 @@ func (c *ctx) rewriteList(holder ast.Node, list []ast.Stmt) []ast.Stmt {
 			out = append(out, c.rewriteGo(st))
 
 		case *ast.RangeStmt:
-			if want, ok := sortedRangeFuncs[c.rel+":"+c.funcName]; ok && exprString(st.X) == want {
+			if want, ok := sortedRangeFuncs[c.rel+":"+c.funcName]; ok && exprString(st.X) == want && !c.rangesNonMapField(st.X) {
 				out = append(out, c.rewriteRange(st))
 				continue
 			}
@@ -533,6 +553,15 @@ func (c *ctx) rewriteList(holder ast.Node, list []ast.Stmt) []ast.Stmt {
 }
 
 func (c *ctx) next() int { c.selN++; return c.selN }
+
+// rangesNonMapField: the ranged expression selects a struct field that this file declares
+// with a type other than a map.
+func (c *ctx) rangesNonMapField(e ast.Expr) bool {
+	if se, ok := e.(*ast.SelectorExpr); ok {
+		return c.nonMap[se.Sel.Name]
+	}
+	return false
+}
 
 func isBlank(e ast.Expr) bool {
 	id, ok := e.(*ast.Ident)
